@@ -34,10 +34,17 @@ def fixed_workload(spec):
 
 
 def canonical(params, algo, warmup=0, workload=None):
-    from eudoxia.simulator import run_simulator
+    from eudoxia.simulator import run_simulator, get_param_defaults
     for i in range(warmup):      # advance process-global counters and registries first
         run_simulator({"duration": 5, "ticks_per_second": 10, "scheduler_algo": ["naive", "priority"][i % 2], "random_seed": 1000 + i,
                        "waiting_seconds_mean": 0.5, "num_pools": 2})
+    if warmup:
+        # and a run configured the way the README does it: take the defaults, override some -- including values the run under test leaves to default
+        p = get_param_defaults()
+        p.update({"duration": 3, "ticks_per_second": 10, "scheduler_algo": "naive", "waiting_seconds_mean": 0.5, "num_pools": 1, "num_pipelines": 2,
+                  "interactive_prob": 0.9, "query_prob": 0.05, "batch_prob": 0.05, "cpu_io_ratio": 0.1, "num_operators": 2, "random_seed": 7,
+                  "cpus_per_pool": 2, "ram_gb_per_pool": 8, "multi_operator_containers": False})
+        run_simulator(p)
     real = template_scheduler() if algo == "template" else algo
     stats, rec = layer_m.run_recorded(params, real, fixed_workload(workload) if workload else None)
     pipe_no, op_no, ctr_no = {}, {}, {}
